@@ -462,6 +462,27 @@ class _ExprCanon(ast.NodeTransformer):
                 hi = ast.Subscript(value=_copy.deepcopy(x_), slice=ast.Tuple(elts=[ast.Constant(value=Ellipsis), ast.Slice(lower=ast.Constant(value=1), upper=None, step=None)], ctx=ast.Load()), ctx=ast.Load())
                 lo = ast.Subscript(value=_copy.deepcopy(x_), slice=ast.Tuple(elts=[ast.Constant(value=Ellipsis), ast.Slice(lower=None, upper=ast.UnaryOp(op=ast.USub(), operand=ast.Constant(value=1)), step=None)], ctx=ast.Load()), ctx=ast.Load())
                 return ast.copy_location(ast.BinOp(left=hi, op=ast.Sub(), right=lo), node)
+        if fn in ("torch.linalg.vector_norm", "torch.linalg.norm") and 1 <= len(node.args) <= 2 and not any(isinstance(a, ast.Starred) for a in node.args):
+            # the infinity norm over all elements is the largest absolute value: x.abs().max()
+            kws = {k.arg: k.value for k in node.keywords}
+            o_ = node.args[1] if len(node.args) == 2 else kws.get("ord")
+            is_vec = fn.endswith("vector_norm") or (isinstance(node.args[0], ast.Call) and ast.unparse(node.args[0]).endswith(".reshape(-1)"))
+            if o_ is not None and set(kws) <= {"ord"} and is_vec and ast.unparse(o_).replace('"', "'") in ("float('inf')", "math.inf", "torch.inf", "np.inf", "numpy.inf"):
+                return self.visit_Call(ast.copy_location(_mcall(_mcall(node.args[0], "abs"), "max"), node))
+        if (fn == "torch.amax" and len(node.args) == 1 and not node.keywords) or \
+                (isinstance(f, ast.Attribute) and f.attr == "amax" and not node.args and not node.keywords and not (isinstance(f.value, ast.Name) and f.value.id in ("torch", "np", "numpy"))):
+            x_ = node.args[0] if fn == "torch.amax" else f.value
+            return self.visit_Call(ast.copy_location(_mcall(x_, "max"), node))
+        cm_ = None
+        if fn in ("torch.clamp_min", "torch.clamp_max") and len(node.args) == 2 and not node.keywords:
+            cm_ = (node.args[0], node.args[1], f.attr)
+        elif isinstance(f, ast.Attribute) and f.attr in ("clamp_min", "clamp_max") and len(node.args) == 1 and not node.keywords \
+                and not (isinstance(f.value, ast.Name) and f.value.id in ("torch", "np", "numpy")):
+            cm_ = (f.value, node.args[0], f.attr)
+        if cm_ is not None:
+            new = ast.Call(func=ast.Attribute(value=ast.Name(id="torch", ctx=ast.Load()), attr="clamp", ctx=ast.Load()), args=[cm_[0]],
+                           keywords=[ast.keyword(arg="min" if cm_[2] == "clamp_min" else "max", value=cm_[1])])
+            return ast.copy_location(new, node)
         if fn == "torch.flatten" and len(node.args) == 1 and not node.keywords:
             return ast.copy_location(_mcall(node.args[0], "reshape", ast.UnaryOp(op=ast.USub(), operand=ast.Constant(1))), node)
         if fn in ("torch.autograd.grad", "autograd.grad") and node.args:
